@@ -69,6 +69,10 @@ def generate(rnd, phrases, n):
             s = " ".join(words)
         if rnd.random() < 0.1:
             s = "round(%s, 2)" % s
+        if rnd.random() < 0.06:
+            s = s + rnd.choice([" / 0", " + 1 s + 1 m", " to nosuchunit"])        # fails after its lookups succeeded
+        if rnd.random() < 0.06 and " " in same:
+            s = same.replace(" ", rnd.choice(["  ", "\t", "   "]), 1)               # several blanks inside a phrase
         out.append(s)
     return out
 
